@@ -1,194 +1,92 @@
-/- REGENERATED on every run by harness/props/c02.py from structure/bonds.pyx. Do not edit. -/
-namespace BiotiteModel.Gen.C02
-/-- `BondType` members: (name, value). -/
-def bondTypes : List (String × Nat) := [("ANY", 0), ("SINGLE", 1), ("DOUBLE", 2), ("TRIPLE", 3), ("QUADRUPLE", 4), ("AROMATIC_SINGLE", 5), ("AROMATIC_DOUBLE", 6), ("AROMATIC_TRIPLE", 7), ("COORDINATION", 8), ("AROMATIC", 9)]
-/-- `BondType.without_aromaticity`: explicit branches (from, to) by value; every other member maps to itself. -/
-def withoutAromaticity : List (Nat × Nat) := [(5, 1), (6, 2), (7, 3), (9, 0)]
-/-- `BondList.remove_aromaticity`: the (aromatic, non-aromatic) pairs applied in order. -/
-def removeAromaticity : List (Nat × Nat) := [(5, 1), (6, 2), (7, 3), (9, 0)]
-/-- number of `>= len(BondType)` guards in the file (constructor and add_bond). -/
-def typeGuards : Nat := 2
-/-- control skeleton of `_to_positive_index` as written (conditions, assignment, returns). -/
-def toPositiveIndexSkeleton : List String := ["if index < 0:", "pos_index = <uint32> (array_length + index)", "if pos_index < 0:", "return pos_index", "else:", "if <uint32> index >= array_length:", "return <uint32> index"]
-/-! every modelled function of bonds.pyx: signature and canonical body (see harness/props/c02.py `_pyx_*`) -/
-/-- `BondType.without_aromaticity`: (return C type, exception clause, [(parameter, C type, default)]) -/
+/-!
+# C02 — the text of `bonds.pyx` the hand-written model was written against (FROZEN, hand-maintained)
+
+For every modelled function: its signature (C types, defaults, exception clause) and its canonical body as produced by
+`harness/props/c02.py` (`_pyx_*`: no docstrings/comments/layout, `raise X(...)` → `raise X`, parameters a0…, locals v0…).
+`Gen/C02.lean` is regenerated from the source on every run; `Props/C02.lean` proves `Gen = Source` function by function
+(`C02_gen_fn_*`).  When the source changes, the failing theorem names the function; this file is updated only together
+with the model (`Model/C02.lean`), never by a tool at run time.
+-/
+namespace BiotiteModel.C02.Source
+
 def sig_BondType_without_aromaticity : String × String × List (String × String × String) := ("", "", [("self", "", "")])
 def body_BondType_without_aromaticity : List String := ["if self == BondType.AROMATIC_SINGLE:", "  return BondType.SINGLE", "elif self == BondType.AROMATIC_DOUBLE:", "  return BondType.DOUBLE", "elif self == BondType.AROMATIC_TRIPLE:", "  return BondType.TRIPLE", "elif self == BondType.AROMATIC:", "  return BondType.ANY", "else:", "  return self"]
-/-- exception classes `BondType.without_aromaticity` raises itself, in source order -/
-def raises_BondType_without_aromaticity : List String := []
-/-- `BondList.__init__`: (return C type, exception clause, [(parameter, C type, default)]) -/
 def sig_dunder_initdunder : String × String × List (String × String × String) := ("", "", [("self", "", ""), ("a0", "uint32", ""), ("a1", "np.ndarray", "None")])
 def body_dunder_initdunder : List String := ["self._atom_count = a0", "if a1 is not None and len(a1) > 0:", "  if a1.ndim != 2:", "    raise ValueError", "  self._bonds = np.zeros((a1.shape[0], 3), dtype=np.uint32)", "  if a1.shape[1] == 3:", "    self._bonds[:,:2] = np.sort(_to_positive_index_array(a1[:,:2], a0), axis=1)", "    if (a1[:, 2] >= len(BondType)).any():", "      raise ValueError", "    self._bonds[:,2] = a1[:, 2]", "  elif a1.shape[1] == 2:", "    self._bonds[:,:2] = np.sort(_to_positive_index_array(a1[:,:2], a0), axis=1)", "  else:", "    raise ValueError", "  self._remove_redundant_bonds()", "  self._max_bonds_per_atom = self._get_max_bonds_per_atom()", "else:", "  self._bonds = np.zeros((0, 3), dtype=np.uint32)", "  self._max_bonds_per_atom = 0"]
-/-- exception classes `BondList.__init__` raises itself, in source order -/
-def raises_dunder_initdunder : List String := ["ValueError", "ValueError", "ValueError"]
-/-- `BondList.concatenate`: (return C type, exception clause, [(parameter, C type, default)]) -/
 def sig_concatenate : String × String × List (String × String × String) := ("", "", [("a0", "", "")])
 def body_concatenate : List String := ["if not isinstance(a0, Sequence):", "  a0 = list(a0)", "cdef np.ndarray v0 = np.concatenate([v1._bonds for v1 in a0])", "cdef int v2 = 0, v3 = 0", "cdef int v4 = 0", "for v1 in a0:", "  v3 = v2 + v1._bonds.shape[0]", "  v0[v2 : v3, :2] += v4", "  v4 += v1._atom_count", "  v2 = v3", "cdef v5 = BondList(v4)", "v5._bonds = v0", "v5._max_bonds_per_atom = max([v1._max_bonds_per_atom for v1 in a0])", "return v5"]
-/-- exception classes `BondList.concatenate` raises itself, in source order -/
-def raises_concatenate : List String := []
-/-- `BondList.__copy_create__`: (return C type, exception clause, [(parameter, C type, default)]) -/
 def sig_dunder_copy_createdunder : String × String × List (String × String × String) := ("", "", [("self", "", "")])
 def body_dunder_copy_createdunder : List String := ["return BondList(self._atom_count)"]
-/-- exception classes `BondList.__copy_create__` raises itself, in source order -/
-def raises_dunder_copy_createdunder : List String := []
-/-- `BondList.__copy_fill__`: (return C type, exception clause, [(parameter, C type, default)]) -/
 def sig_dunder_copy_filldunder : String × String × List (String × String × String) := ("", "", [("self", "", ""), ("a0", "", "")])
 def body_dunder_copy_filldunder : List String := ["a0._bonds = self._bonds.copy()", "a0._max_bonds_per_atom = self._max_bonds_per_atom"]
-/-- exception classes `BondList.__copy_fill__` raises itself, in source order -/
-def raises_dunder_copy_filldunder : List String := []
-/-- `BondList.offset_indices`: (return C type, exception clause, [(parameter, C type, default)]) -/
 def sig_offset_indices : String × String × List (String × String × String) := ("", "", [("self", "", ""), ("a0", "int", "")])
 def body_offset_indices : List String := ["if a0 < 0:", "  raise ValueError", "self._bonds[:,:2] += a0", "self._atom_count += a0"]
-/-- exception classes `BondList.offset_indices` raises itself, in source order -/
-def raises_offset_indices : List String := ["ValueError"]
-/-- `BondList.as_array`: (return C type, exception clause, [(parameter, C type, default)]) -/
 def sig_as_array : String × String × List (String × String × String) := ("", "", [("self", "", "")])
 def body_as_array : List String := ["return self._bonds.copy()"]
-/-- exception classes `BondList.as_array` raises itself, in source order -/
-def raises_as_array : List String := []
-/-- `BondList.as_set`: (return C type, exception clause, [(parameter, C type, default)]) -/
 def sig_as_set : String × String × List (String × String × String) := ("", "", [("self", "", "")])
 def body_as_set : List String := ["cdef uint32[:,:] v0 = self._bonds", "cdef int v1", "cdef set v2 = set()", "for v1 in range(v0.shape[0]):", "  v2.add((v0[v1,0], v0[v1,1], v0[v1,2]))", "return v2"]
-/-- exception classes `BondList.as_set` raises itself, in source order -/
-def raises_as_set : List String := []
-/-- `BondList.as_graph`: (return C type, exception clause, [(parameter, C type, default)]) -/
 def sig_as_graph : String × String × List (String × String × String) := ("", "", [("self", "", "")])
 def body_as_graph : List String := ["cdef int v0", "cdef uint32[:,:] v1 = self._bonds", "v2 = nx.Graph()", "cdef list v3 = [None] * v1.shape[0]", "for v0 in range(v1.shape[0]):", "  v3[v0] = (v1[v0,0], v1[v0,1], {\"bond_type\": BondType(v1[v0,2])})", "v2.add_edges_from(v3)", "return v2"]
-/-- exception classes `BondList.as_graph` raises itself, in source order -/
-def raises_as_graph : List String := []
-/-- `BondList.remove_aromaticity`: (return C type, exception clause, [(parameter, C type, default)]) -/
 def sig_remove_aromaticity : String × String × List (String × String × String) := ("", "", [("self", "", "")])
 def body_remove_aromaticity : List String := ["v0 = self._bonds[:,2]", "for v1, v2 in [(BondType.AROMATIC_SINGLE, BondType.SINGLE), (BondType.AROMATIC_DOUBLE, BondType.DOUBLE), (BondType.AROMATIC_TRIPLE, BondType.TRIPLE), (BondType.AROMATIC, BondType.ANY),]:", "  v0[v0 == v1] = v2"]
-/-- exception classes `BondList.remove_aromaticity` raises itself, in source order -/
-def raises_remove_aromaticity : List String := []
-/-- `BondList.remove_bond_order`: (return C type, exception clause, [(parameter, C type, default)]) -/
 def sig_remove_bond_order : String × String × List (String × String × String) := ("", "", [("self", "", "")])
 def body_remove_bond_order : List String := ["self._bonds[:,2] = BondType.ANY"]
-/-- exception classes `BondList.remove_bond_order` raises itself, in source order -/
-def raises_remove_bond_order : List String := []
-/-- `BondList.get_atom_count`: (return C type, exception clause, [(parameter, C type, default)]) -/
 def sig_get_atom_count : String × String × List (String × String × String) := ("", "", [("self", "", "")])
 def body_get_atom_count : List String := ["return self._atom_count"]
-/-- exception classes `BondList.get_atom_count` raises itself, in source order -/
-def raises_get_atom_count : List String := []
-/-- `BondList.get_bond_count`: (return C type, exception clause, [(parameter, C type, default)]) -/
 def sig_get_bond_count : String × String × List (String × String × String) := ("", "", [("self", "", "")])
 def body_get_bond_count : List String := ["return len(self._bonds)"]
-/-- exception classes `BondList.get_bond_count` raises itself, in source order -/
-def raises_get_bond_count : List String := []
-/-- `BondList.get_bonds`: (return C type, exception clause, [(parameter, C type, default)]) -/
 def sig_get_bonds : String × String × List (String × String × String) := ("", "", [("self", "", ""), ("a0", "int32", "")])
 def body_get_bonds : List String := ["cdef int v0=0, v1=0", "cdef uint32 v2 = _to_positive_index(a0, self._atom_count)", "cdef uint32[:,:] v4 = self._bonds", "cdef np.ndarray v5 = np.zeros(self._max_bonds_per_atom, v6=np.uint32)", "cdef uint32[:] v7 = v5", "cdef np.ndarray v8 = np.zeros(self._max_bonds_per_atom, v6=np.uint8)", "cdef uint8[:] v9 = v8", "for v0 in range(v4.shape[0]):", "  if v4[v0,0] == v2:", "    v7[v1] = v4[v0,1]", "    v9[v1] = v4[v0,2]", "    v1 += 1", "  elif v4[v0,1] == v2:", "    v7[v1] = v4[v0,0]", "    v9[v1] = v4[v0,2]", "    v1 += 1", "v5 = v5[:v1]", "v8 = v8[:v1]", "return v5, v8"]
-/-- exception classes `BondList.get_bonds` raises itself, in source order -/
-def raises_get_bonds : List String := []
-/-- `BondList.get_all_bonds`: (return C type, exception clause, [(parameter, C type, default)]) -/
 def sig_get_all_bonds : String × String × List (String × String × String) := ("", "", [("self", "", "")])
 def body_get_all_bonds : List String := ["cdef int v0=0", "cdef uint32 v1, v2, v3", "cdef uint32[:,:] v4 = self._bonds", "cdef np.ndarray v5 = np.full((self._atom_count, self._max_bonds_per_atom), -1, v7=np.int32)", "cdef int32[:,:] v8 = v5", "cdef np.ndarray v9 = np.full((self._atom_count, self._max_bonds_per_atom), -1, v7=np.int8)", "cdef int8[:,:] v10 = v9", "cdef np.ndarray v11 = np.zeros(self._atom_count, v7=np.uint32)", "cdef uint32[:] v12 = v11", "for v0 in range(v4.shape[0]):", "  v1 = v4[v0,0]", "  v2 = v4[v0,1]", "  v3 = v4[v0,2]", "  v8[v1, v12[v1]] = v2", "  v8[v2, v12[v2]] = v1", "  v10[v1, v12[v1]] = v3", "  v10[v2, v12[v2]] = v3", "  v12[v1] += 1", "  v12[v2] += 1", "return v5, v9"]
-/-- exception classes `BondList.get_all_bonds` raises itself, in source order -/
-def raises_get_all_bonds : List String := []
-/-- `BondList.adjacency_matrix`: (return C type, exception clause, [(parameter, C type, default)]) -/
 def sig_adjacency_matrix : String × String × List (String × String × String) := ("", "", [("self", "", "")])
 def body_adjacency_matrix : List String := ["v0 = np.zeros((self._atom_count, self._atom_count), dtype=bool)", "v0[self._bonds[:,0], self._bonds[:,1]] = True", "v0[self._bonds[:,1], self._bonds[:,0]] = True", "return v0"]
-/-- exception classes `BondList.adjacency_matrix` raises itself, in source order -/
-def raises_adjacency_matrix : List String := []
-/-- `BondList.bond_type_matrix`: (return C type, exception clause, [(parameter, C type, default)]) -/
 def sig_bond_type_matrix : String × String × List (String × String × String) := ("", "", [("self", "", "")])
 def body_bond_type_matrix : List String := ["v0 = np.full((self._atom_count, self._atom_count), -1, dtype=np.int8)", "v0[self._bonds[:,0], self._bonds[:,1]] = self._bonds[:,2]", "v0[self._bonds[:,1], self._bonds[:,0]] = self._bonds[:,2]", "return v0"]
-/-- exception classes `BondList.bond_type_matrix` raises itself, in source order -/
-def raises_bond_type_matrix : List String := []
-/-- `BondList.add_bond`: (return C type, exception clause, [(parameter, C type, default)]) -/
 def sig_add_bond : String × String × List (String × String × String) := ("", "", [("self", "", ""), ("a0", "int32", ""), ("a1", "int32", ""), ("a2", "", "BondType.ANY")])
 def body_add_bond : List String := ["if a2 >= len(BondType):", "  raise ValueError", "cdef uint32 v0 = _to_positive_index(a0, self._atom_count)", "cdef uint32 v2 = _to_positive_index(a1, self._atom_count)", "_sort(&v0, &v2)", "cdef int v3", "cdef uint32[:,:] v4 = self._bonds", "cdef bint v5 = False", "for v3 in range(v4.shape[0]):", "  if (v4[v3,0] == v0 and v4[v3,1] == v2):", "    v5 = True", "    v4[v3,2] = int(a2)", "    break", "if not v5:", "  self._bonds = np.append(self._bonds, np.array([(v0, v2, int(a2))], dtype=np.uint32), axis=0)", "  self._max_bonds_per_atom = self._get_max_bonds_per_atom()"]
-/-- exception classes `BondList.add_bond` raises itself, in source order -/
-def raises_add_bond : List String := ["ValueError"]
-/-- `BondList.remove_bond`: (return C type, exception clause, [(parameter, C type, default)]) -/
 def sig_remove_bond : String × String × List (String × String × String) := ("", "", [("self", "", ""), ("a0", "int32", ""), ("a1", "int32", "")])
 def body_remove_bond : List String := ["cdef uint32 v0 = _to_positive_index(a0, self._atom_count)", "cdef uint32 v2 = _to_positive_index(a1, self._atom_count)", "_sort(&v0, &v2)", "cdef int v3", "cdef uint32[:,:] v4 = self._bonds", "for v3 in range(v4.shape[0]):", "  if (v4[v3,0] == v0 and v4[v3,1] == v2):", "    self._bonds = np.delete(self._bonds, v3, axis=0)"]
-/-- exception classes `BondList.remove_bond` raises itself, in source order -/
-def raises_remove_bond : List String := []
-/-- `BondList.remove_bonds_to`: (return C type, exception clause, [(parameter, C type, default)]) -/
 def sig_remove_bonds_to : String × String × List (String × String × String) := ("", "", [("self", "", ""), ("a0", "int32", "")])
 def body_remove_bonds_to : List String := ["cdef uint32 v0 = _to_positive_index(a0, self._atom_count)", "cdef np.ndarray v2 = np.ones(len(self._bonds), v3=np.uint8)", "cdef uint8[:] v4 = v2", "cdef int v5", "cdef uint32[:,:] v6 = self._bonds", "for v5 in range(v6.shape[0]):", "  if (v6[v5,0] == v0 or v6[v5,1] == v0):", "    v4[v5] = False", "self._bonds = self._bonds[v2.astype(bool, copy=False)]"]
-/-- exception classes `BondList.remove_bonds_to` raises itself, in source order -/
-def raises_remove_bonds_to : List String := []
-/-- `BondList.remove_bonds`: (return C type, exception clause, [(parameter, C type, default)]) -/
 def sig_remove_bonds : String × String × List (String × String × String) := ("", "", [("self", "", ""), ("a0", "", "")])
 def body_remove_bonds : List String := ["cdef int v0=0, v1=0", "cdef uint32[:,:] v2 = self._bonds", "cdef uint32[:,:] v3 = a0._bonds", "cdef np.ndarray v4 = np.ones(v2.shape[0], v5=np.uint8)", "cdef uint8[:] v6 = v4", "for v0 in range(v2.shape[0]):", "  for v1 in range(v3.shape[0]):", "    if v2[v0,0] == v3[v1,0] and v2[v0,1] == v3[v1,1]:", "        v6[v0] = False", "self._bonds = self._bonds[v4.astype(bool, copy=False)]"]
-/-- exception classes `BondList.remove_bonds` raises itself, in source order -/
-def raises_remove_bonds : List String := []
-/-- `BondList.merge`: (return C type, exception clause, [(parameter, C type, default)]) -/
 def sig_merge : String × String × List (String × String × String) := ("", "", [("self", "", ""), ("a0", "", "")])
 def body_merge : List String := ["return BondList(max(self._atom_count, a0._atom_count), np.concatenate([a0.as_array(), self.as_array()], axis=0))"]
-/-- exception classes `BondList.merge` raises itself, in source order -/
-def raises_merge : List String := []
-/-- `BondList.__add__`: (return C type, exception clause, [(parameter, C type, default)]) -/
 def sig_dunder_adddunder : String × String × List (String × String × String) := ("", "", [("self", "", ""), ("a0", "", "")])
 def body_dunder_adddunder : List String := ["return BondList.concatenate([self, a0])"]
-/-- exception classes `BondList.__add__` raises itself, in source order -/
-def raises_dunder_adddunder : List String := []
-/-- `BondList.__getitem__`: (return C type, exception clause, [(parameter, C type, default)]) -/
 def sig_dunder_getitemdunder : String × String × List (String × String × String) := ("", "", [("self", "", ""), ("a0", "", "")])
 def body_dunder_getitemdunder : List String := ["cdef uint32[:,:] v0", "cdef int v1", "cdef uint32* v2", "cdef uint32* v3", "cdef np.ndarray v4", "cdef uint8[:] v5", "cdef int32[:] v6", "cdef int32 v7, v8", "cdef np.ndarray v9", "cdef uint8[:] v10", "cdef np.ndarray v11", "cdef uint32[:] v12", "if isinstance(a0, numbers.Integral):", "  return self.get_bonds(a0)", "elif isinstance(a0, np.ndarray) and a0.dtype == bool:", "  v13 = self.copy()", "  v0 = v13._bonds", "  v9 = np.frombuffer(a0, dtype=np.uint8)", "  v11 = np.cumsum(~v9.astype(bool, v13=False), dtype=np.uint32)", "  v4 = np.ones(v0.shape[0], dtype=np.uint8)", "  v5 = v4", "  v10 = v9", "  v12 = v11", "  for v1 in range(v0.shape[0]):", "    v2 = &v0[v1,0]", "    v3 = &v0[v1,1]", "    if v10[v2[0]] and v10[v3[0]]:", "      v2[0] -= v12[v2[0]]", "      v3[0] -= v12[v3[0]]", "    else:", "      v5[v1] = False", "  v13._bonds = v13._bonds[v4.astype(bool, v13=False)]", "  v13._atom_count = len(np.nonzero(v9)[0])", "  v13._max_bonds_per_atom = v13._get_max_bonds_per_atom()", "  return v13", "else:", "  v13 = self.copy()", "  v0 = v13._bonds", "  a0 = _to_index_array(a0, self._atom_count)", "  a0 = _to_positive_index_array(a0, self._atom_count)", "  v6 = _invert_index(a0, self._atom_count)", "  v4 = np.ones(v0.shape[0], dtype=np.uint8)", "  v5 = v4", "  for v1 in range(v0.shape[0]):", "    v2 = &v0[v1,0]", "    v3 = &v0[v1,1]", "    v7 = v6[v2[0]]", "    v8 = v6[v3[0]]", "    if v7 != -1 and v8 != -1:", "      v2[0] = <int32>v7", "      v3[0] = <int32>v8", "    else:", "      v5[v1] = False", "  v13._bonds = v13._bonds[v4.astype(bool, v13=False)]", "  v13._bonds[:,:2] = np.sort(v13._bonds[:,:2], axis=1)", "  v13._atom_count = len(a0)", "  v13._max_bonds_per_atom = v13._get_max_bonds_per_atom()", "  return v13"]
-/-- exception classes `BondList.__getitem__` raises itself, in source order -/
-def raises_dunder_getitemdunder : List String := []
-/-- `BondList.__iter__`: (return C type, exception clause, [(parameter, C type, default)]) -/
 def sig_dunder_iterdunder : String × String × List (String × String × String) := ("", "", [("self", "", "")])
 def body_dunder_iterdunder : List String := ["raise TypeError"]
-/-- exception classes `BondList.__iter__` raises itself, in source order -/
-def raises_dunder_iterdunder : List String := ["TypeError"]
-/-- `BondList.__str__`: (return C type, exception clause, [(parameter, C type, default)]) -/
 def sig_dunder_strdunder : String × String × List (String × String × String) := ("", "", [("self", "", "")])
 def body_dunder_strdunder : List String := ["return str(self.as_array())"]
-/-- exception classes `BondList.__str__` raises itself, in source order -/
-def raises_dunder_strdunder : List String := []
-/-- `BondList.__eq__`: (return C type, exception clause, [(parameter, C type, default)]) -/
 def sig_dunder_eqdunder : String × String × List (String × String × String) := ("", "", [("self", "", ""), ("a0", "", "")])
 def body_dunder_eqdunder : List String := ["if not isinstance(a0, BondList):", "  return False", "return (self._atom_count == a0._atom_count and self.as_set() == a0.as_set())"]
-/-- exception classes `BondList.__eq__` raises itself, in source order -/
-def raises_dunder_eqdunder : List String := []
-/-- `BondList.__contains__`: (return C type, exception clause, [(parameter, C type, default)]) -/
 def sig_dunder_containsdunder : String × String × List (String × String × String) := ("", "", [("self", "", ""), ("a0", "", "")])
 def body_dunder_containsdunder : List String := ["if not isinstance(a0, tuple) and len(tuple) != 2:", "  raise TypeError", "cdef int v0=0", "cdef uint32 v1, v2", "cdef uint32 v3 = min(a0)", "cdef uint32 v4 = max(a0)", "cdef uint32[:,:] v5 = self._bonds", "for v0 in range(v5.shape[0]):", "  v1 = v5[v0,0]", "  v2 = v5[v0,1]", "  if v3 == v1 and v4 == v2:", "    return True", "return False"]
-/-- exception classes `BondList.__contains__` raises itself, in source order -/
-def raises_dunder_containsdunder : List String := ["TypeError"]
-/-- `BondList._get_max_bonds_per_atom`: (return C type, exception clause, [(parameter, C type, default)]) -/
 def sig_get_max_bonds_per_atom : String × String × List (String × String × String) := ("", "", [("self", "", "")])
 def body_get_max_bonds_per_atom : List String := ["if self._atom_count == 0:", "  return 0", "cdef int v0", "cdef uint32[:,:] v1 = self._bonds", "cdef np.ndarray v2 = np.zeros(self._atom_count, v3=np.uint32)", "cdef uint32[:] v4 = v2", "for v0 in range(v1.shape[0]):", "  v4[v1[v0,0]] += 1", "  v4[v1[v0,1]] += 1", "return np.max(v4)"]
-/-- exception classes `BondList._get_max_bonds_per_atom` raises itself, in source order -/
-def raises_get_max_bonds_per_atom : List String := []
-/-- `BondList._remove_redundant_bonds`: (return C type, exception clause, [(parameter, C type, default)]) -/
 def sig_remove_redundant_bonds : String × String × List (String × String × String) := ("", "", [("self", "", "")])
 def body_remove_redundant_bonds : List String := ["cdef int v0", "cdef uint32[:,:] v1 = self._bonds", "cdef np.ndarray v2 = np.ones(v1.shape[0], v3=np.uint8)", "cdef uint8[:] v4 = v2", "cdef ptr[:] v5 = np.zeros(self._atom_count, v3=np.uint64)", "cdef int[:] v6 = np.zeros(self._atom_count, v3=np.int32)", "cdef uint32 v7, v8", "cdef uint32* v9", "cdef int v10", "try:", "  for v0 in range(v1.shape[0]):", "    v7 = v1[v0,0]", "    v8 = v1[v0,1]", "    if _in_array(<uint32*>v5[v7], v8, v6[v7]):", "        v4[v0] = False", "    else:", "      v10 = v6[v7] +1", "      v9 = <uint32*>v5[v7]", "      v9 = <uint32*>realloc(v9, v10 * sizeof(uint32))", "      if not v9:", "        raise MemoryError", "      v9[v10-1] = v8", "      v5[v7] = <ptr>v9", "      v6[v7] = v10", "finally:", "  for v11 in range(v5.shape[0]):", "    free(<int*>v5[v11])", "self._bonds = self._bonds[v2.astype(bool, copy=False)]"]
-/-- exception classes `BondList._remove_redundant_bonds` raises itself, in source order -/
-def raises_remove_redundant_bonds : List String := ["MemoryError"]
-/-- `_to_positive_index`: (return C type, exception clause, [(parameter, C type, default)]) -/
 def sig_to_positive_index : String × String × List (String × String × String) := ("uint32", "except-1", [("a0", "int32", ""), ("a1", "uint32", "")])
 def body_to_positive_index : List String := ["cdef uint32 v0", "if a0 < 0:", "  v0 = <uint32> (a1 + a0)", "  if v0 < 0:", "    raise IndexError", "  return v0", "else:", "  if <uint32> a0 >= a1:", "    raise IndexError", "  return <uint32> a0"]
-/-- exception classes `_to_positive_index` raises itself, in source order -/
-def raises_to_positive_index : List String := ["IndexError", "IndexError"]
-/-- `_to_positive_index_array`: (return C type, exception clause, [(parameter, C type, default)]) -/
 def sig_to_positive_index_array : String × String × List (String × String × String) := ("", "", [("a0", "", ""), ("a1", "", "")])
 def body_to_positive_index_array : List String := ["a0 = a0.copy()", "v0 = a0.shape", "a0 = a0.flatten()", "v1 = a0 < 0", "a0[v1] = a1 + a0[v1]", "if (a0 < 0).any():", "  raise IndexError", "if (a0 >= a1).any():", "  raise IndexError", "return a0.reshape(v0)"]
-/-- exception classes `_to_positive_index_array` raises itself, in source order -/
-def raises_to_positive_index_array : List String := ["IndexError", "IndexError"]
-/-- `_to_index_array`: (return C type, exception clause, [(parameter, C type, default)]) -/
 def sig_to_index_array : String × String × List (String × String × String) := ("", "", [("a0", "object", ""), ("a1", "uint32", "")])
 def body_to_index_array : List String := ["if isinstance(a0, np.ndarray) and np.issubdtype(a0.dtype, np.integer):", "  return a0", "else:", "  v0 = np.arange(a1, dtype=np.uint32)", "  return v0[a0]"]
-/-- exception classes `_to_index_array` raises itself, in source order -/
-def raises_to_index_array : List String := []
-/-- `_in_array`: (return C type, exception clause, [(parameter, C type, default)]) -/
 def sig_in_array : String × String × List (String × String × String) := ("bint", "", [("a0", "uint32*", ""), ("a1", "uint32", ""), ("a2", "int", "")])
 def body_in_array : List String := ["cdef int v0 = 0", "if a0 == NULL:", "  return False", "for v0 in range(a2):", "  if a0[v0] == a1:", "    return True", "return False"]
-/-- exception classes `_in_array` raises itself, in source order -/
-def raises_in_array : List String := []
-/-- `_sort`: (return C type, exception clause, [(parameter, C type, default)]) -/
 def sig_sort : String × String × List (String × String × String) := ("void", "", [("a0", "uint32*", ""), ("a1", "uint32*", "")])
 def body_sort : List String := ["cdef uint32 v0", "if a0[0] > a1[0]:", "  v0 = a0[0]", "  a0[0] = a1[0]", "  a1[0] = v0"]
-/-- exception classes `_sort` raises itself, in source order -/
-def raises_sort : List String := []
-/-- `_invert_index`: (return C type, exception clause, [(parameter, C type, default)]) -/
 def sig_invert_index : String × String × List (String × String × String) := ("", "", [("a0", "IndexType[:]", ""), ("a1", "uint32", "")])
 def body_invert_index : List String := ["cdef int32 v0", "cdef IndexType v1", "v2 = np.full(a1, -1, dtype=np.int32)", "cdef int32[:] v3 = v2", "for v0 in range(a0.shape[0]):", "  v1 = a0[v0]", "  if v3[v1] != -1:", "    raise NotImplementedError", "  v3[v1] = v0", "return v2"]
-/-- exception classes `_invert_index` raises itself, in source order -/
-def raises_invert_index : List String := ["NotImplementedError"]
-end BiotiteModel.Gen.C02
+
+/-- the C integer types that occur in the modelled signatures and the value ranges the model gives them -/
+def ctypeRange : String → Option (Int × Int)
+  | "int32" => some (-2147483648, 2147483647)
+  | "int" => some (-2147483648, 2147483647)
+  | "uint32" => some (0, 4294967295)
+  | _ => none
+
+end BiotiteModel.C02.Source
